@@ -67,6 +67,63 @@ type concStats struct {
 	runs, ops, compactions, yields int
 }
 
+// c10ScanAcrossUnmap returns the text of a fault or of a wrong pair, or "".
+func c10ScanAcrossUnmap(r *rng, dir string, useClose bool) (fault string) {
+	o := &pogreb.Options{FileSystem: fs.OSMMap}
+	pogreb.VerifSetThresholds(o, 1024, 512, math.Float32frombits(fragBits(0.01)))
+	db, err := pogreb.Open(dir, o)
+	if err != nil {
+		return ""
+	}
+	stored := map[string]map[string]bool{}
+	put := func(k, v string) {
+		if db.Put([]byte(k), []byte(v)) == nil {
+			if stored[k] == nil {
+				stored[k] = map[string]bool{}
+			}
+			stored[k][v] = true
+		}
+	}
+	for i := 0; i < 10; i++ {
+		put(fmt.Sprintf("s%02d", i), strings.Repeat(string(rune('a'+i)), 40+r.intn(20)))
+	}
+	for i := 0; i < 5; i++ {
+		put(fmt.Sprintf("s%02d", i), strings.Repeat("z", 30)) // garbage in the first segment
+	}
+	it := db.Items()
+	closed := false
+	defer func() {
+		if !closed {
+			_ = db.Close()
+		}
+	}()
+	defer debug.SetPanicOnFault(debug.SetPanicOnFault(true))
+	defer func() {
+		if rec := recover(); rec != nil {
+			fault = fmt.Sprint("fault / panic in Next: ", rec)
+		}
+	}()
+	if _, _, err := it.Next(); err != nil {
+		return ""
+	}
+	if useClose {
+		_ = db.Close()
+		closed = true
+	} else {
+		_, _ = db.Compact()
+	}
+	for n := 0; n < 20; n++ {
+		k, v, err := it.Next()
+		if err != nil {
+			return ""
+		}
+		if !stored[string(k)][string(v)] {
+			return fmt.Sprintf("Next returned (%q, %q), which was never stored", clip(string(k)), clip(string(v)))
+		}
+	}
+	return ""
+}
+
 // concSyncMode: the next concRun opens the database in sync-after-every-write mode
 var concSyncMode bool
 
@@ -431,6 +488,11 @@ func genC07(r *rng, tier string, res *Result) {
 		if i%4 == 3 {
 			fsys, dir = fs.OSMMap, filepath.Join(tmp, fmt.Sprintf("m%d", i))
 		}
+		if i%8 == 1 {
+			// the plain OS file system has read paths of its own (pread into buffers)
+			fsys, dir = fs.OS, filepath.Join(tmp, fmt.Sprintf("o%d", i))
+			res.Tags["runs_on_fs_os"]++
+		}
 		cold := 0
 		ops := 40 + r.intn(60)
 		if i%2 == 1 {
@@ -451,6 +513,9 @@ func genC07(r *rng, tier string, res *Result) {
 		dir := "db"
 		if i%2 == 1 {
 			fsys, dir = fs.OSMMap, filepath.Join(tmp, fmt.Sprintf("g%d", i))
+		}
+		if i%4 == 2 {
+			fsys, dir = fs.OS, filepath.Join(tmp, fmt.Sprintf("go%d", i))
 		}
 		growReads += concGrow(r, fsys, dir, 400+r.intn(1200), 2+r.intn(5), res, fmt.Sprintf("C07/grow/%d", i))
 		res.Cases++
@@ -506,6 +571,21 @@ func genC10(r *rng, tier string, res *Result) {
 			break
 		}
 		res.Tags["large_value_reads_racing_with_unmapping"]++
+	}
+	// a scan whose queue holds items of a segment that is then compacted away / a database that is then
+	// closed (fs.OSMMap unmaps): the following Next calls return items, an error or done -- no fault
+	for i := 0; i < scale(tier, 6, 40); i++ {
+		if fault := c10ScanAcrossUnmap(r, filepath.Join(tmp, fmt.Sprintf("scan%d", i)), i%2 == 1); fault != "" {
+			what := "Compact"
+			if i%2 == 1 {
+				what = "Close"
+			}
+			res.Findings = append(res.Findings, &Finding{Kind: "spec", Case: fmt.Sprintf("C10/scan/%d", i), Cmd: "Next after " + what + " on fs.OSMMap",
+				Impl: []string{clip(fault)}, Expected: []string{"an item that was stored, an error, or ErrIterationDone; no memory fault"},
+				Program: []string{"open (fs.OSMMap, 1 KiB segments)", "10 x put", "overwrite half (garbage)", "it := Items(); it.Next()", what, "it.Next() ..."}})
+			break
+		}
+		res.Tags["scans_across_unmapping"]++
 	}
 	// after Close no goroutine started by the database is left
 	time.Sleep(50 * time.Millisecond)
